@@ -157,6 +157,41 @@ def derived_stream(R):
                         R.traces += 1
 
 
+def parameterised_entries(R):
+    """C.parse(args) for a parameterised class is an entry point like any other, whatever the arguments are (numbers,
+    tuples, lists, dicts, sets, None): same outcome as a start rule that instantiates the class with those arguments"""
+    import sys
+    sys.path.insert(0, core.REPO)
+    from sourcer import Grammar
+    CLS = 'class Rep(n, xs) {\n    items: "a"{n}\n    tail: /b*/ where `lambda t: len(t) == len(xs)`\n}\n'
+
+    def call(f, g, t, pos, full):
+        try:
+            return ('return', repr(f()(t, pos, full)))
+        except g.PartialParseError as e:
+            return ('partial', repr(e.partial_result), e.last_position.index)
+        except g.ParseError as e:
+            return ('error', e.position.index)
+        except Exception as e:                  # noqa
+            return ('exception', type(e).__name__)
+    g = Grammar('start = Rep(`1`, `()`)\n' + CLS)
+    for n, xs in [(1, (1, 2)), (2, [1, 2]), (1, {'k': 1}), (0, []), (1, {1, 2}), (2, None), (1, 'bb'), (1, [[1], [2]]), (1, ([1], 2))]:
+        if xs is None:
+            continue
+        ref = Grammar(f'start = Rep(`{n!r}`, `{xs!r}`)\n' + CLS)
+        for t in ('', 'a', 'ab', 'abb', 'aabb', 'aab', 'b', 'abbb', 'abb!'):
+            for pos in (0, 1):
+                for full in (True, False):
+                    got = call(lambda: g.Rep.parse(n, xs), g, t, pos, full)
+                    want = call(lambda: ref.parse, ref, t, pos, full)
+                    R.count('parameterised-entry', (n, repr(xs), t, pos, full), nontrivial=want[0] == 'return')
+                    if got != want:
+                        mech = 'exception-escapes:' + got[1] if got[0] == 'exception' else 'parameterised-entry-differs-from-instantiation'
+                        R.counterexample('parameterised-entry', mech, {'grammar': CLS, 'call': f'Rep.parse({n!r}, {xs!r})({t!r}, {pos}, {full})'}, want, got)
+                    else:
+                        R.traces += 1
+
+
 def run(R):
     R.build()
     R.prove('Props/C08.v')
@@ -176,6 +211,7 @@ def run(R):
                 kinds[k] = kinds.get(k, 0) + 1
     R.extra['parse_outcome_kinds'] = kinds
     derived_stream(R)
+    parameterised_entries(R)
     R.assumptions += ['inline Python of the generated grammars does not raise', 'regular expressions without anchors/lookbehind (oracle tables)']
     return R.finish(
         rule='grammars with classes (consuming, zero-width, empty), empty sequences and rules combined by '
